@@ -289,6 +289,114 @@ Section Chain.
       apply (step_par_correct s evs ans i r sl Hi Ho); [rewrite Es; reflexivity | exact Hin].
     - apply (IH s1 Hi1 Hrest k evs ans i r sl Hop); [rewrite Er; exact Hout | exact Hin].
   Qed.
+  (* --- retention: an entry leaves the map only through a cleaning run entitled to remove it ---
+     Whatever else is stored meanwhile, and however many entries the map holds (it has no size
+     bound), a root stays cached with its slot as long as no cleaning run -- sequential or inside
+     a group -- finds its slot below the first slot of (epoch - 64). *)
+  Definition clean_keeps (r : root) (e spe : N) : Prop :=
+    (e <=? retention) = true \/ (slot_of r <? min_slot e spe) = false.
+
+  Definition pev_keeps (r : root) (e : pev) : Prop :=
+    match e with PClean e spe => clean_keeps r e spe | _ => True end.
+
+  Definition op_keeps (r : root) (o : op) : Prop :=
+    match o with
+    | Clean e spe => clean_keeps r e spe
+    | Par evs => Forall (pev_keeps r) evs
+    | _ => True
+    end.
+
+  Definition cached (s : state) (r : root) : Prop := get s r = Some (slot_of r).
+
+  Lemma cached_set s r r' : cached s r -> cached (set s r' (slot_of r')) r.
+  Proof.
+    unfold cached. intro H. rewrite get_set. destruct (r' =? r) eqn:E; [|exact H].
+    apply N.eqb_eq in E. subst; reflexivity.
+  Qed.
+
+  Lemma cached_clean s r e spe : wf s -> clean_keeps r e spe -> cached s r -> cached (clean s e spe) r.
+  Proof.
+    unfold cached. intros Hwf Hk H. rewrite get_clean by exact Hwf. rewrite H.
+    destruct Hk as [Hk|Hk]; rewrite Hk; [reflexivity|]. destruct (e <=? retention); reflexivity.
+  Qed.
+
+  Lemma pstep_keeps s pend e r : Inv s -> pev_consistent e -> pev_keeps r e ->
+    cached s r -> cached (fst (fst (pstep s pend e))) r.
+  Proof.
+    intros [Hwf _] Hc Hk H. destruct e as [i r' | i r' f | r' sl | ce spe]; cbn [pstep pev_consistent pev_keeps] in *.
+    - destruct (get s r'); exact H.
+    - destruct (memb N.eqb i pend); [|exact H].
+      destruct f as [sl|]; cbn [fst]; [subst sl; apply cached_set; exact H | exact H].
+    - subst sl. apply cached_set; exact H.
+    - apply cached_clean; assumption.
+  Qed.
+
+  Lemma par_run_keeps evs r : forall s pend, Inv s -> Forall pev_consistent evs -> Forall (pev_keeps r) evs ->
+    cached s r -> cached (fst (par_run s pend evs)) r.
+  Proof.
+    induction evs as [|e evs IH]; intros s pend Hi Hc Hk H; cbn [par_run]; [exact H|].
+    inversion Hc as [|? ? He Hrest]; subst. inversion Hk as [|? ? Hke Hkrest]; subst.
+    pose proof (pstep_inv s pend e Hi He) as H1.
+    pose proof (pstep_keeps s pend e r Hi He Hke H) as H2.
+    destruct (pstep s pend e) as [[s1 pend1] a]. cbn [fst] in H1, H2.
+    specialize (IH s1 pend1 H1 Hrest Hkrest H2). destruct (par_run s1 pend1 evs) as [s2 ans]. exact IH.
+  Qed.
+
+  Lemma step_keeps s o r : Inv s -> op_consistent o -> op_keeps r o -> cached s r -> cached (fst (step s o)) r.
+  Proof.
+    intros Hi Hc Hk H.
+    destruct o as [r' sl | r' f | e spe | r' sl blk | evs]; cbn [step fst op_consistent op_keeps] in *.
+    - subst sl. apply cached_set; exact H.
+    - destruct (get s r') eqn:G; cbn [fst]; [exact H|].
+      destruct f as [sl|]; cbn [fst]; [|exact H]. subst sl. apply cached_set; exact H.
+    - apply cached_clean; [exact (proj1 Hi) | exact Hk | exact H].
+    - exact H.
+    - pose proof (par_run_keeps evs r s [] Hi Hc Hk H) as H1. destruct (par_run s [] evs) as [s' ans]. exact H1.
+  Qed.
+
+  Lemma run_keeps ops r : forall s, Inv s -> Forall op_consistent ops -> Forall (op_keeps r) ops ->
+    cached s r -> cached (fst (run s ops)) r.
+  Proof.
+    induction ops as [|o ops IH]; intros s Hi Hc Hk H; cbn [run]; [exact H|].
+    inversion Hc as [|? ? Ho Hrest]; subst. inversion Hk as [|? ? Hko Hkrest]; subst.
+    pose proof (step_inv s o Hi Ho) as Hi1.
+    pose proof (step_keeps s o r Hi Ho Hko H) as H1.
+    destruct (step s o) as [s1 x]. cbn [fst] in Hi1, H1.
+    specialize (IH s1 Hi1 Hrest Hkrest H1). destruct (run s1 ops) as [s2 xs]. exact IH.
+  Qed.
+
+  (* once a root has been stored (block event, SetBlockRootToSlot or a successful miss), then after
+     ANY further consistent history none of whose cleaning runs is entitled to remove it, a lookup
+     of it is a hit with its slot, whatever the node would answer *)
+  Lemma stored_then_hit ops1 o ops2 r f :
+    Forall op_consistent (ops1 ++ o :: ops2) ->
+    (o = Event r (slot_of r) \/ o = Lookup r (Some (slot_of r))) ->
+    Forall (op_keeps r) ops2 ->
+    let s := fst (run init (ops1 ++ o :: ops2)) in
+    step s (Lookup r f) = (s, OSlot (slot_of r)).
+  Proof.
+    intros Hc Ho Hk.
+    assert (Hrun : forall a b s, fst (run s (a ++ b)) = fst (run (fst (run s a)) b)).
+    { induction a as [|x a IH]; intros b s0; cbn [app run fst]; [reflexivity|].
+      destruct (step s0 x) as [s1 y]. specialize (IH b s1).
+      destruct (run s1 (a ++ b)) as [s2 ys]. destruct (run s1 a) as [s3 zs]. exact IH. }
+    apply Forall_app in Hc. destruct Hc as [Hc1 Hc2]. inversion Hc2 as [|? ? Hco Hc3]; subst x l.
+    cbn zeta. rewrite Hrun.
+    pose proof (run_inv ops1 init inv_init Hc1) as Hi1.
+    set (s1 := fst (run init ops1)) in *.
+    assert (Hs : Inv (fst (step s1 o)) /\ cached (fst (step s1 o)) r).
+    { split; [apply step_inv; assumption|].
+      destruct Ho as [-> | ->]; cbn [step fst]; unfold cached.
+      - rewrite get_set, N.eqb_refl. reflexivity.
+      - destruct (get s1 r) as [sl0|] eqn:G; cbn [fst].
+        + rewrite G. f_equal. apply (proj2 Hi1 r sl0 G).
+        + rewrite get_set, N.eqb_refl. reflexivity. }
+    destruct Hs as [Hi2 Hcached].
+    cbn [run]. destruct (step s1 o) as [s2 x] eqn:Es. cbn [fst] in Hi2, Hcached.
+    pose proof (run_keeps ops2 r s2 Hi2 Hc3 Hk Hcached) as Hfin.
+    destruct (run s2 ops2) as [s3 xs] eqn:Er. cbn [fst] in *.
+    unfold cached in Hfin. cbn [step]. rewrite Hfin. reflexivity.
+  Qed.
 End Chain.
 
 (* --- overlapping lookups: a failed fetch is an error for the goroutine that fetched, it stores
